@@ -247,7 +247,7 @@ def sdf_jobs(Job, cfg=CFG_NDEBUG, tier="quick"):
 
 
 def c04_extra(Job, tier):
-    return mmb_jobs(Job) + sdf_jobs(Job)
+    return mmb_jobs(Job) + sdf_jobs(Job) + dump_jobs(Job)
 
 
 # ---- C16 extra: connect_drives ---------------------------------------------------------------------------------
@@ -432,3 +432,11 @@ def mfm_decoder_jobs(Job, cfg=CFG_NDEBUG, tier="quick"):
         js.append(track_J(Job, c2, "check_crc_with_a1s", "h_check_crc", ["check_crc_with_a1s"], t, replace=["CRC16Base_update", "CRC16Base_get", "CCITT_CRC16_init"],
                           cover=True, timeout=2400, cbmc=["--unwindset", "h_fill_crc.0:%d" % (n + 2), "--unwinding-assertions"]))
     return js
+
+
+def dump_jobs(Job, cfg=CFG_NDEBUG, tier="quick"):
+    g = ["dump_get_arg", "dump_sector_addr"]
+    return [Job("D_dump_get_arg_%s" % cfg[0], "harness/dfs_dump.c", "h_get_arg", enforce=["dump_get_arg"],
+                defines=list(cfg[1]), extract=ext(g), tier=tier, cover=True),
+            Job("D_dump_sector_addr_%s" % cfg[0], "harness/dfs_dump.c", "h_sector_addr", enforce=["dump_sector_addr"],
+                defines=list(cfg[1]), extract=ext(g), tier=tier, solver="portfolio")]
